@@ -935,3 +935,32 @@ def _tqdm(eng, node, *a, **k):
     """progress bar: no effect on the verified state"""
     from .engine import LoggerObj
     return LoggerObj()
+
+
+@reg("itertools.combinations")
+def _combinations(eng, node, it, r=2):
+    """combinations(d, 2) over the keys of a symbolic dict: a ghost sequence in which every unordered pair of DISTINCT keys occurs
+    exactly once (in one of its two orientations)"""
+    from .types import TTuple
+    src = it
+    if isinstance(it, (tuple, list, CList)) and r == 2:
+        items = list(it)
+        return CList([(items[i], items[j]) for i in range(len(items)) for j in range(i + 1, len(items))])
+    if not (isinstance(src, SDict) and r == 2 and len(src.k.sorts()) == 1):
+        raise Unsupported("itertools.combinations on this argument")
+    ks = key_sort_of(src.k)
+    tag = f"comb{eng.counters.get('comb', 0)}"
+    eng.counters["comb"] = eng.counters.get("comb", 0) + 1
+    n = z3.Int(f"{tag}.n")
+    ca = z3.Const(f"{tag}.a", z3.ArraySort(z3.IntSort(), ks))
+    cb = z3.Const(f"{tag}.b", z3.ArraySort(z3.IntSort(), ks))
+    pos = z3.Function(f"{tag}.pos", ks, ks, z3.IntSort())
+    i = z3.Int("_ci")
+    x, y = z3.Const("_cx", ks), z3.Const("_cy", ks)
+    eng.assume(n >= 0)
+    eng.assume(z3.ForAll([i], z3.Implies(z3.And(0 <= i, i < n), z3.And(src.dom[ca[i]], src.dom[cb[i]], ca[i] != cb[i], pos(ca[i], cb[i]) == i))))
+    eng.assume(z3.ForAll([x, y], z3.Implies(z3.And(src.dom[x], src.dom[y], x != y),
+                                            z3.And(0 <= pos(x, y), pos(x, y) < n, pos(x, y) == pos(y, x),
+                                                   z3.Or(z3.And(ca[pos(x, y)] == x, cb[pos(x, y)] == y), z3.And(ca[pos(x, y)] == y, cb[pos(x, y)] == x))))))
+    eng.frame.env["_comb_pos"] = pos
+    return SList(TTuple(src.k, src.k), n, [ca, cb])
